@@ -16,6 +16,7 @@ type accessRec struct {
 	n     int
 	write bool
 	instr ssa.Instruction
+	rel   []Ptr // sync objects this thread released after the access without an intervening scheduling point
 }
 
 func (e *Engine) noteAccess(st *State, p Ptr, n int, write bool) {
@@ -47,13 +48,16 @@ func (e *Engine) noteAccess(st *State, p Ptr, n int, write bool) {
 			if a.obj != p.Obj || !(write || a.write) {
 				continue
 			}
+			if len(a.rel) > 0 && holdsAny(th, a.rel) {
+				continue // ordered: the accessing thread holds a lock the other one released after its access
+			}
 			if a.off < p.Off+n && p.Off < a.off+a.n {
 				e.recordRace(st, p, a.instr, e.curInstr, a.write, write)
 			}
 		}
 	}
 	w := st.threadW(ti)
-	w.Open = append(w.Open[:len(w.Open):len(w.Open)], accessRec{p.Obj, p.Off, n, write, e.curInstr})
+	w.Open = append(w.Open[:len(w.Open):len(w.Open)], accessRec{p.Obj, p.Off, n, write, e.curInstr, nil})
 }
 
 func (e *Engine) recordRace(st *State, p Ptr, a, b ssa.Instruction, aw, bw bool) {
@@ -106,5 +110,41 @@ func (e *Engine) promotedAccess(st *State, th *Thread, p Ptr, in ssa.Instruction
 func (e *Engine) Promote(instrs map[ssa.Instruction]bool) {
 	for in := range instrs {
 		e.promoted[in] = true
+	}
+}
+
+func holdsAny(th *Thread, ps []Ptr) bool {
+	for _, p := range ps {
+		for _, h := range th.Held {
+			if h == p {
+				return true
+			}
+		}
+	}
+	return false
+}
+
+// markReleased: a release executed without a scheduling point keeps the open set, tagged with the released object.
+func markReleased(th *Thread, p Ptr) {
+	if len(th.Open) == 0 {
+		return
+	}
+	n := make([]accessRec, len(th.Open))
+	for i, a := range th.Open {
+		a.rel = append(a.rel[:len(a.rel):len(a.rel)], p)
+		n[i] = a
+	}
+	th.Open = n
+}
+
+func holdAdd(th *Thread, p Ptr) { th.Held = append(th.Held[:len(th.Held):len(th.Held)], p) }
+
+func holdDel(th *Thread, p Ptr) {
+	for i := len(th.Held) - 1; i >= 0; i-- {
+		if th.Held[i] == p {
+			n := append([]Ptr(nil), th.Held[:i]...)
+			th.Held = append(n, th.Held[i+1:]...)
+			return
+		}
 	}
 }
